@@ -208,6 +208,9 @@ def orphans(path: Path, clean: bool, size: bool, show_all: bool, ignore_old: boo
 
     # Retrieve the jobs within expedriments (jobs and jobs.bak folder within experiments)
     xpjobs = set()
+    # ... and the folders they lead to (a job folder can be reached through a
+    # link created when repairing deprecated identifiers)
+    xpfolders = set()
     if ignore_old:
         paths = (path / "xp").glob("*/jobs")
     else:
@@ -217,15 +220,19 @@ def orphans(path: Path, clean: bool, size: bool, show_all: bool, ignore_old: boo
         if p.is_dir():
             for relpath, path in getjobs(p):
                 xpjobs.add(relpath)
+                xpfolders.add(path.resolve())
 
     # Now, look at stored jobs
     found = 0
     for key, jobpath in getjobs(jobspath):
-        if key not in xpjobs:
+        if key not in xpjobs and jobpath.resolve() not in xpfolders:
             show(key)
             if clean:
                 logging.info("Removing data in %s", jobpath)
-                rmtree(jobpath)
+                if jobpath.is_symlink():
+                    jobpath.unlink()
+                else:
+                    rmtree(jobpath)
         else:
             if show_all:
                 show(key, prefix="[not orphan] ")
